@@ -93,6 +93,12 @@ func (ex *Exec) vrtCall(fn *ssa.Function, args []Value, pos token.Pos) Value {
 		ex.assume(c)
 		return nil
 	case "Assert":
+		if ex.lastEvents != nil {
+			// assertion over the engine's write log: not observable natively
+			ex.checkObligation(args[0].(*Term), "assert-writelog", cstr(args[1]), pos)
+			ex.lastEvents = nil
+			return nil
+		}
 		ex.assertProp(args[0].(*Term), cstr(args[1]), pos)
 		return nil
 	case "Out":
@@ -118,9 +124,13 @@ func (ex *Exec) vrtCall(fn *ssa.Function, args []Value, pos token.Pos) Value {
 		return nil
 	case "Events":
 		n := 0
+		ex.lastEvents = []string{}
 		for _, e := range ex.events {
 			if e.Kind == cstr(args[0]) {
 				n++
+				if len(ex.lastEvents) < 8 {
+					ex.lastEvents = append(ex.lastEvents, e.Kind+" at "+e.Pos+": "+e.Info)
+				}
 			}
 		}
 		return tb.Const(64, uint64(n))
